@@ -5,6 +5,8 @@
 # on the changed tree. Writes /tmp/seedout/<prop>/confirm<k>.json. Removes the worktree.
 set -u
 export GOFLAGS=-mod=mod GOPROXY=off GOSUMDB=off GOTOOLCHAIN=local; unset GOWORK
+# tests run in a private network namespace (loopback only): the server tests use fixed ports
+NS="unshare -rn /verif/tools/netns_run.sh"
 P=$1; K=$2; DEMO=$3; DDIR=$4; PAT=$5; SUITE=${6:-suite}
 OUT=${SEEDOUT:-/tmp/seedout}/$P
 WT=/tmp/cs/$P-$K-$$
@@ -18,12 +20,14 @@ fi
 git diff > $OUT/confirm$K.applied.diff
 BUILD=ok; go build ./... > $OUT/confirm$K.build.log 2>&1 || BUILD=fail
 cp $OUT/$DEMO $WT/$DDIR/zz_demo_test.go
-DEMO_WITH=pass; go test -vet=off -count=1 -run "$PAT" ./$DDIR/ > $OUT/confirm$K.demo_with.log 2>&1 || DEMO_WITH=fail
+DEMO_WITH=pass; $NS go test -vet=off -count=1 -run "$PAT" ./$DDIR/ > $OUT/confirm$K.demo_with.log 2>&1 || DEMO_WITH=fail
 rm -f $WT/$DDIR/zz_demo_test.go
 SUITE_RES=skipped
 if [ "$SUITE" = suite ]; then
-  go test -vet=off -count=1 -timeout 25m ./... > $OUT/confirm$K.suite.log 2>&1
+  $NS go test -vet=off -count=1 -timeout 25m ./... > $OUT/confirm$K.suite.log 2>&1
   SUITE_RES=$(grep -E "^(FAIL|---)" $OUT/confirm$K.suite.log | grep -E "^--- FAIL" | sed 's/--- FAIL: //;s/ (.*//' | sort -u | tr '\n' ',' )
+  SUB=$(grep -aE "^\s+--- FAIL: TestServers/(ClusterComplex.2|ClusterMultiLeader.1) " $OUT/confirm$K.suite.log | sed 's/ *--- FAIL: //;s/ (.*//' | sort -u | tr '\n' ',')
+  SUITE_RES="$SUITE_RES$SUB"
   [ -z "$SUITE_RES" ] && SUITE_RES=allpass
 fi
 # zcheck on the changed tree
@@ -31,7 +35,7 @@ mkdir -p /tmp/zout/$P-$K; cp /verif/known_findings.json /tmp/zout/$P-$K/
 /verif/bin/zcheck -p $P -repo $WT -verif /tmp/zout/$P-$K > $OUT/confirm$K.zcheck.log 2>&1; ZC=$?
 git reset -q --hard HEAD
 cp $OUT/$DEMO $WT/$DDIR/zz_demo_test.go
-DEMO_WITHOUT=pass; go test -vet=off -count=1 -run "$PAT" ./$DDIR/ > $OUT/confirm$K.demo_without.log 2>&1 || DEMO_WITHOUT=fail
+DEMO_WITHOUT=pass; $NS go test -vet=off -count=1 -run "$PAT" ./$DDIR/ > $OUT/confirm$K.demo_without.log 2>&1 || DEMO_WITHOUT=fail
 cd /; git -C /repo worktree remove --force $WT
 cat > $OUT/confirm$K.json <<EOJ
 {"apply": true, "build": "$BUILD", "demo_with_change": "$DEMO_WITH", "demo_without_change": "$DEMO_WITHOUT", "suite_failures": "$SUITE_RES", "zcheck_exit": $ZC}
